@@ -69,6 +69,7 @@ structure Db (C R D : Type) where
 
 inductive Res where
   | ok | done | busy | errPoisoned | errStale | errParent | errNotEnough | errIo
+  | errSuperseded                         -- `Session::finish`: the overlay chain of the session does not stand on the committed state
 deriving DecidableEq, Repr
 
 /-- which durable step of a commit fails (environment input) -/
@@ -89,6 +90,8 @@ inductive Instr (R W D : Type) where
                                           -- straight path, the error on the unwinding path of a `bail!` / `?`)
   | mLock | mUnlock                       -- `shared.lock()` / end of its scope
   | sessRoot (sid : Nat)                  -- under M: the session's `prev_root := shared.root`
+  | sessBase (sid : Nat) (base : R)       -- under M: `base_superseded := chain base != shared.root` (repair of F23)
+  | finChk (sid : Nat)                    -- `Session::finish`: `if self.base_superseded { bail! }` (the session is dropped)
   | readRoot                              -- under M: `seen := shared.root`
   | sessRead (sid : Nat)                  -- `Session::read` / `prove`: observes the committed content
   | chkMarker (parent : Option Nat)       -- under M: `parent_matches_marker(last_commit_marker)`
@@ -113,8 +116,11 @@ inductive WOp (R W D : Type) where
 /-- API calls -/
 inductive Call (R W D : Type) where
   | beginSession (sid : Nat)
-  | beginSessionOv (sid : Nat)            -- on live overlays: `prev_root` comes from the overlay; since the repair of F23 the
-                                          -- committed root is read under M (compared with the base of the chain)
+  /-- on live overlays: `prev_root` comes from the overlay; since the repair of F23 the committed root is read under M
+  and compared with `base`, the state the chain was built on (root of its youngest committed member, else the previous
+  root of its oldest member) -/
+  | beginSessionOv (sid : Nat) (base : R)
+  | finishSession (sid : Nat)             -- `Session::finish` (`endSession` = drop)
   | endSession (sid : Nat)                -- drop / `finish`
   | sessRead (sid : Nat)
   | nomtRead (sid : Nat)                  -- `Nomt::read`: a temporary read guard
@@ -133,7 +139,8 @@ variable {R W D : Type}
 
 def progOf : Call R W D → List (Instr R W D)
   | .beginSession sid => [.aRead sid, .mLock, .sessRoot sid, .mUnlock, .ret .done]
-  | .beginSessionOv sid => [.aRead sid, .mLock, .readRoot, .mUnlock, .ret .done]
+  | .beginSessionOv sid base => [.aRead sid, .mLock, .sessBase sid base, .mUnlock, .ret .done]
+  | .finishSession sid => [.finChk sid, .aReadUnlock sid, .ret .ok]
   | .endSession sid => [.aReadUnlock sid, .ret .done]
   | .sessRead sid => [.sessRead sid, .ret .done]
   | .nomtRead sid => [.aRead sid, .sessRead sid, .aReadUnlock sid, .ret .done]
@@ -172,7 +179,7 @@ def opOf : Call R W D → Option (WOp R W D)
 
 /-- calls that can wait for the access lock -/
 def Call.blocksOnA : Call R W D → Bool
-  | .beginSession _ | .beginSessionOv _ | .nomtRead _ | .commit .. | .ovCommit .. | .ovCommitHoldM .. => true
+  | .beginSession _ | .beginSessionOv _ _ | .nomtRead _ | .commit .. | .ovCommit .. | .ovCommitHoldM .. => true
   | .rollback n _ => n != 0
   | _ => false
 
@@ -192,6 +199,8 @@ structure Sess (C R : Type) where
   content : C                              -- ghost: committed content when the read guard was taken
   root : R                                 -- ghost: `shared.root` at that moment
   prev : Option R := none                  -- `Session::prev_root` once `begin_session` has read it
+  chain : Option R := none                 -- the base of the overlay chain the session builds on, once compared
+  stale : Bool := false                    -- `Session::base_superseded`
 deriving DecidableEq
 
 /-- thread-local registers -/
@@ -326,6 +335,14 @@ def exec (s : S C R W D) (t : Tid) (i : Instr R W D) (rest : List (Instr R W D))
   | .sessRoot sid =>
     (adv { s with readers := s.readers.map (fun x =>
         if x.owner == t && x.sid == sid then { x with prev := some s.db.root } else x) }, .ran)
+  | .sessBase sid b =>
+    (adv { s with readers := s.readers.map (fun x =>
+        if x.owner == t && x.sid == sid then { x with chain := some b, stale := decide (s.db.root ≠ b) } else x) }, .ran)
+  | .finChk sid =>
+    if s.readers.any (fun x => x.owner == t && x.sid == sid && x.stale) then
+      -- `bail!`: the session (its read guard) is dropped, the error returned; no changeset exists
+      ({ s with thr := upd s.thr t { th with prog := [.aReadUnlock sid, .ret .errSuperseded] } }, .ran)
+    else (adv s, .ran)
   | .ret r => ({ s with thr := upd s.thr t { th with prog := [], res := some r } }, .finished r)
   | i =>
     match eff ops i th.regs s.db with
@@ -450,6 +467,8 @@ def wf : Bool → WS → List (Instr R W D) → Bool
       | .mLock => !hm && wf true ws rest
       | .mUnlock => hm && wf false ws rest
       | .sessRoot _ => hm && ws == .none && wf hm ws rest
+      | .sessBase _ _ => hm && ws == .none && wf hm ws rest
+      | .finChk _ => !hm && ws == .none && wf hm ws rest
       | .readRoot => hm && ws != .pre && wf hm ws rest
       | .sessRead _ => ws == .none && wf hm ws rest
       | .chkMarker _ => hm && wf hm ws rest
